@@ -14,9 +14,10 @@ Index-range theorems for the loop-simple routines of `specpart.c`, for **all** `
                        distinct positions, and the prefix-sum loop index `i+1` stays `< ihmax`;
 * `fifo_add_in_range`, `fifo_first_in_range`   the circular queue indices stay in `[0, nspec)`.
 
-**Not proved** (explored: ASan/UBSan on the real C + the bounds-checked Lean transliteration's `oob`/`fuelOut` flags on the
-same inputs, `harness/checks/c20_native.py`): that inside `pt_fld` every `ind[m]`, `neigh[…]`, `iq[…]` access is in range,
-that the fictitious pixel `-100` is never used as an index, that the queue never overflows, and termination.
+**Proved separately** (`Props/C20fld.lean`, namespace `WS.C20fld`): inside `pt_fld` every `ind[m]`, `neigh[…]`, `iq[…]`,
+`imo[…]`, `imd[…]` access is in range, the fictitious pixel `-100` is never used as an index, the queue never overflows
+and every `for(;;)` terminates — `partition_memory_safe`, `partition_terminates` for all grids, level counts, integer
+spectra and queue fillings (the ASan/UBSan runs of `harness/checks/c20_native.py` remain as exploration of the real C).
 -/
 namespace WS.C20
 open WS.Neigh WS.NeighL WS.SP
